@@ -436,6 +436,20 @@ class Function:
                 if name is None or n.get("fn") == name or (n.get("fn") or "").split("::")[-1] == name:
                     yield n
 
+    def first_pos(self, n):
+        """CFG position of the element evaluated first inside n (statements and short-circuit operators are not
+        elements themselves): leftmost innermost element in post-order."""
+        def post(x):
+            for key in ("pre", "ch"):
+                for c in x.get(key) or []:
+                    if c is not None:
+                        r = post(c)
+                        if r is not None:
+                            return r
+            return self.cfg.pos.get(x["i"])
+        r = post(n)
+        return r if r is not None else self.cfg.locate(n)
+
     def ancestors(self, n):
         p = self.parent.get(n["i"])
         while p is not None:
